@@ -192,11 +192,31 @@ func (s *sctx) varItem() Item {
 	if kind != "lambda" {
 		it.Probes = append(it.Probes, name)
 	}
+	if kind == "vector" || kind == "array" {
+		it.Probes = append(it.Probes, arrayProbes(name)...)
+	}
 	if r.IntN(4) == 0 && kind == "number" {
 		// the value a session leaves behind need not be the initial one
 		it.Forms = append(it.Forms, fmt.Sprintf("(setq %s (+ %s 1))", name, name))
 	}
 	return it
+}
+
+// arrayProbes ask slip's own accessors about the array held by a variable,
+// then use it: an element is pushed (the outcome tells a full vector, a
+// vector with room and a vector without a fill pointer apart).
+func arrayProbes(name string) []string {
+	return []string{
+		"(let ((c19-v " + name + ")) " + arrayProbe + ")",
+		"(vector-push 'zz " + name + ")",
+		"(length " + name + ")",
+	}
+}
+
+// vectorVarItem is a variable holding the vector that src yields.
+func vectorVarItem(name, src string) Item {
+	return Item{Kind: "var", Name: name, Forms: []string{fmt.Sprintf("(defvar %s %s)", name, src)},
+		Probes: append([]string{name}, arrayProbes(name)...)}
 }
 
 func (s *sctx) constItem() Item {
